@@ -113,11 +113,13 @@ def check(pid, tier, args):
                               ev["loader"], json.dumps(ev["file"])[:160], json.dumps(ev["obs"])))
             if len(run.violations) >= 20:
                 break
-    if pid == "C05":
-        # dimension sweeps: every header field driven through its bit patterns (binding T)
+    if pid in ("C05", "C06"):
+        # C05: dimension sweeps, every header field driven through its bit patterns (binding T)
+        # C06: the same sweep files (no profile: (nil, nil)) plus 255-chunk, full-size-chunk and multi-MiB embeddings
         events = os.path.join(sc, "events_dims.ndjson")
-        vlib.run([drive, "dims", "-out", events, "-tier", tier, "-seed", str(vlib.seed())], timeout=3000)
-        results, rejects, lines = vlib.validate_trace("TraceContainers", "TraceContainers_C05.cfg", events,
+        vlib.run([drive, "dims", "-out", events, "-tier", tier if pid == "C05" else "quick", "-seed", str(vlib.seed())]
+                 + (["-icc"] if pid == "C06" else []), timeout=3000)
+        results, rejects, lines = vlib.validate_trace("TraceContainers", "TraceContainers_%s.cfg" % pid, events,
                                                       shards=8 if tier == "thorough" else 2)
         for res in results:
             run.add_tlc("TraceContainers/dims", res)
